@@ -17,7 +17,8 @@ pub fn run<S: InterpreterTrait>(interpreter: &mut S) -> Result<(), RuntimeError>
 
 fn val(s: &str) -> Result<Variant, VariantError> {
     let mut is_positive = true;
-    let mut value: f64 = 0.0;
+    // the digits (and the decimal point) of the number at the start of the string
+    let mut digits = String::new();
     let mut fraction_power: i32 = 0;
 
     const STATE_INITIAL: u8 = 0;
@@ -34,17 +35,14 @@ fn val(s: &str) -> Result<Variant, VariantError> {
             } else if state == STATE_DOT {
                 state = STATE_FRACTION;
             }
-            if state == STATE_INT {
-                value = value * 10.0 + ((c as u8) - b'0') as f64;
-            } else {
+            if state != STATE_INT {
                 if fraction_power <= MAX_INTEGER {
                     fraction_power += 1;
                 } else {
                     return Err(VariantError::Overflow);
                 }
-                value = (value * 10.0_f64.powi(fraction_power) + ((c as u8) - b'0') as f64)
-                    / 10.0_f64.powi(fraction_power);
             }
+            digits.push(c);
         } else if c == ' ' {
             // ignore spaces apparently
         } else if c == '.' {
@@ -52,6 +50,7 @@ fn val(s: &str) -> Result<Variant, VariantError> {
                 break;
             } else {
                 state = STATE_DOT;
+                digits.push(c);
             }
         } else if c == '-' {
             if state == STATE_INITIAL {
@@ -72,8 +71,15 @@ fn val(s: &str) -> Result<Variant, VariantError> {
         }
     }
 
-    // more digits than a DOUBLE can hold: the value is an infinity (many integer digits)
-    // or not a number (many fraction digits: infinity divided by infinity)
+    // the nearest DOUBLE to the written digits (accumulating digit by digit rounds at every
+    // step, so that VAL(STR$(k)) would not be k for large whole numbers)
+    let value: f64 = if digits.chars().any(|c| c.is_ascii_digit()) {
+        digits.parse().map_err(|_| VariantError::Overflow)?
+    } else {
+        0.0
+    };
+
+    // more digits than a DOUBLE can hold: the value is an infinity
     if !value.is_finite() {
         return Err(VariantError::Overflow);
     }
